@@ -8,6 +8,12 @@ for f in sys.argv[2:]:
         c = l.rstrip('\n').split('\t')
         if len(c) >= 6: res[(c[0], c[1])] = c
 HIST = {
+ ('seed9','C04'): 'missed at first (needs an IC dict with entries for nodes that are not in G): every other complex-contagion case now carries such entries; caught since',
+ ('seed9','C09'): 'missed at first (needs a node with a falsy label, 0 or the empty string, as a source): a label kind with the nodes 0 and the empty string was added to every simulator generator; caught since by the transmission_tree comparison',
+ ('seed9','C13'): 'missed at first (needs an event at exactly t = 0.0, a falsy time): every tenth case now starts at minus the first duration of its first initial node; caught since',
+ ('seed9','C14'): 'missed at first (needs a single index case handed over as a bare str/tuple-labelled node): a single index case is now passed as the bare node in every other such case; caught since',
+ ('seed9','C16'): 'missed at first (needs a removal through random_removal() followed by a re-insertion): half of the removals of the class-vs-model histories now go through random_removal(); caught since',
+ ('seed9','C19'): 'caught statically at first: the induced-transition graph of the dynamic battery now carries a weight_label, and the snapshot shows the popped attribute',
  ('seed8','C04'): 'missed at first (needs a self-loop on a node infected by a neighbour; C09 had such graphs, C04 did not): a seeded self-loop battery for the four Markovian simulators was added to C04; caught since',
  ('seed8','C16'): 'missed at first (needs a thousand rejections in a row): a persistent-rejection probe (a candidate whose accept test fails in every round is never returned) runs on every 12th history; caught since',
  ('seed8','C19'): 'missed at first (needs degree pairs that never share an edge, so that a read of the defaultdict rows of get_Pnk inserts zeros): the test graph of the dynamic battery got a pendant node; caught since by the snapshot of Pnk (C06/C07 caught the KeyError it causes with plain-dict rows all along)',
